@@ -1,10 +1,10 @@
 package main
 
 import (
-	"time"
 	"errors"
 	"fmt"
 	"strings"
+	"time"
 
 	"go.lstv.dev/util/date"
 
